@@ -127,10 +127,18 @@ impl Check for C10 {
                 if c.flag(2, 3) {
                     let i = &task.names.inputs[0].0;
                     let po = dir.join("o.po");
-                    let mut text = format!("lemma(forward)[l1]: forall X ({i}(X) -> {i}(X)).\nlemma: exists X ({i}(X)) or not exists X ({i}(X)).\n");
+                    // an inductive lemma (two problems: base and step) stands first, in the middle or last
+                    let lemmas = [
+                        format!("lemma(forward)[l1]: forall X ({i}(X) -> {i}(X)).\n"),
+                        format!("lemma: exists X ({i}(X)) or not exists X ({i}(X)).\n"),
+                    ];
+                    let mut entries: Vec<String> = lemmas.to_vec();
                     if c.flag(1, 2) {
-                        text.push_str(&format!("inductive-lemma(backward)[il]: forall N$i (N$i >= 0 -> ({i}(N$i) or not {i}(N$i))).\n"));
+                        let direction = ["", "(backward)", "(forward)"][c.aux(21, 3)];
+                        let il = format!("inductive-lemma{direction}[il]: forall N$i (N$i >= 0 -> ({i}(N$i) or not {i}(N$i))).\n");
+                        entries.insert(c.aux(22, 3), il);
                     }
+                    let mut text: String = entries.concat();
                     std::fs::write(&po, &text).unwrap();
                     inputs.push(po.to_string_lossy().to_string());
                     task_text.push_str(&format!("\n  proof outline: {text}"));
